@@ -652,18 +652,19 @@ def check_c19(pid, tier, seed):
         return runs
     ab, c = collect(tr1), collect(tr2)
     # public entry point (threaded, one worker below depth 3): A/B in one process, C in another
-    pub = [{"id": 500000 + i, "fen": fens[i], "depth": rnd.choice([1, 2, 3]), "seed": rnd.randrange(1 << 30), "reuse": False, "tag": "P"} for i in range(3 if quick else 24)]
+    pub = [{"id": 500000 + i, "fen": fens[i], "depth": rnd.choice([1, 2, 3]), "seed": rnd.randrange(1 << 30), "reuse": False, "tag": "P"} for i in range(4 if quick else 24)]
+    # one process pair per case, so that run A is the *first* fresh search of its process and run B a later one
     ptr = []
-    for k, tagset in enumerate((["A", "B"], ["C"])):
-        script = os.path.join(wd, "c19pub_%d.jsonl" % k)
-        with open(script, "w") as f:
-            for p in pub:
+    for j, pcase in enumerate(pub):
+        for k, tagset in enumerate((["A", "B"], ["C"])):
+            script = os.path.join(wd, "c19pub_%d_%d.jsonl" % (j, k))
+            with open(script, "w") as f:
                 for tg in tagset:
-                    f.write(json.dumps(dict(p, tag=tg)) + "\n")
-        ptr.append((script, os.path.join(wd, "c19pub_%d.ndjson" % k)))
-    with ThreadPoolExecutor(max_workers=2) as ex:
+                    f.write(json.dumps(dict(pcase, tag=tg)) + "\n")
+            ptr.append((script, os.path.join(wd, "c19pub_%d_%d.ndjson" % (j, k)), k))
+    with ThreadPoolExecutor(max_workers=6) as ex:
         list(ex.map(lambda sp: subprocess.run([wvbin, "search-public", "--script", sp[0], "--out", sp[1]], capture_output=True, timeout=3000), ptr))
-    pab, pc = collect([ptr[0][1]]), collect([ptr[1][1]])
+    pab, pc = collect([p[1] for p in ptr if p[2] == 0]), collect([p[1] for p in ptr if p[2] == 1])
     path = os.path.join(wd, "repro.ndjson")
     n = 0
     with open(path, "w") as f:
